@@ -345,55 +345,6 @@ theorem evLoop_mems (e : EventRec) (tj ec : Bytes) (cap : Nat) (hc : ECtx e tj e
             (List.map (fun x => x.m) (y :: ms)).reverse ++ (x.m :: seen) := by simp
         rw [this]; exact hi
 
-theorem sum_map_erase {α : Type} [DecidableEq α] (w : α → Nat) (S : List α) (a : α) (h : a ∈ S) :
-    (S.map w).sum = w a + ((S.erase a).map w).sum := by
-  induction S with
-  | nil => cases h
-  | cons b S ih =>
-    by_cases hb : b = a
-    · subst hb; simp
-    · have : a ∈ S := by
-        rcases List.mem_cons.mp h with h | h
-        · exact absurd h.symm hb
-        · exact h
-      rw [List.erase_cons_tail (by simpa using hb)]
-      simp only [List.map_cons, List.sum_cons, ih this]
-      omega
-
-theorem sum_le_of_nodup_subset {α : Type} [DecidableEq α] (w : α → Nat) (S l : List α) (hS : S.Nodup)
-    (hsub : ∀ x ∈ S, x ∈ l) : (S.map w).sum ≤ (l.map w).sum := by
-  induction l generalizing S with
-  | nil =>
-    cases S with
-    | nil => simp
-    | cons a S => exact absurd (hsub a (by simp)) (by simp)
-  | cons a l ih =>
-    by_cases ha : a ∈ S
-    · rw [sum_map_erase w S a ha]
-      have := ih (S.erase a) (hS.erase a) (by
-        intro x hx
-        have hxS : x ∈ S := List.mem_of_mem_erase hx
-        have hne : x ≠ a := by
-          intro heq; subst heq
-          exact (List.Nodup.not_mem_erase hS) hx
-        rcases List.mem_cons.mp (hsub x hxS) with h | h
-        · exact absurd h hne
-        · exact h)
-      simp only [List.map_cons, List.sum_cons]
-      omega
-    · have := ih S hS (by
-        intro x hx
-        rcases List.mem_cons.mp (hsub x hx) with h | h
-        · subst h; exact absurd hx ha
-        · exact h)
-      simp only [List.map_cons, List.sum_cons]
-      omega
-
-theorem sum_ones {α : Type} (l : List α) : (l.map (fun _ => 1)).sum = l.length := by
-  induction l with
-  | nil => rfl
-  | cons a l ih => simp only [List.map_cons, List.sum_cons, ih, List.length_cons]; omega
-
 theorem evText_length_ge (e : EventRec) (tj ec : Bytes) (ms : List MemSpec) (R : Bytes) :
     ((ms.map (·.m)).map (fun m => (valOf e tj ec m).length)).sum ≤ (evText e tj ec ms R).length := by
   induction ms with
